@@ -419,6 +419,13 @@ fn server_case_json(bad: &[u8], split: usize, cont: &[u8], pre_valid: bool) -> J
 /// After a 400 the rejected request is never yielded and a following well-formed request on
 /// the same connection is yielded and answered. `bad` must contain the text REJECTED in its URI.
 fn server_case(ctx: &mut Ctx, bad: &[u8], split: usize, cont: &[u8], pre_valid: bool) -> bool {
+    server_case_ex(ctx, bad, split, cont, pre_valid, false)
+}
+
+/// `ahead`: a complete valid request is pipelined in front of the offending one in the same write. The server may
+/// yield it by the time it answers the 400 or drop it; what it must not do is yield it from a LATER read, because
+/// bytes read after the error are to be handled as on a fresh connection.
+fn server_case_ex(ctx: &mut Ctx, bad: &[u8], split: usize, cont: &[u8], pre_valid: bool, ahead: bool) -> bool {
     use crate::sim::{judge_client, JudgeOpts, PollOut, ReqKind, Sim};
     if !ctx.begin() {
         return false;
@@ -430,7 +437,11 @@ fn server_case(ctx: &mut Ctx, bad: &[u8], split: usize, cont: &[u8], pre_valid: 
         Err(_) => return false,
     };
     let fail = |ctx: &mut Ctx, kind: &str, d: String| {
-        ctx.rep.violation(&format!("C11:server:{}", kind), d, server_case_json(bad, split, cont, pre_valid));
+        let mut c = server_case_json(bad, split, cont, pre_valid);
+        if let J::Obj(kv) = &mut c {
+            kv.push(("ahead".to_string(), J::Bool(ahead)));
+        }
+        ctx.rep.violation(&format!("C11:server:{}", kind), d, c);
         true
     };
     sim.connect(0);
@@ -451,7 +462,16 @@ fn server_case(ctx: &mut Ctx, bad: &[u8], split: usize, cont: &[u8], pre_valid: 
     }
     // the offending request, possibly in two writes so that a partial line is buffered
     let split = split.min(bad.len());
-    if split > 0 && split < bad.len() {
+    let mut ahead_tag: Option<String> = None;
+    if ahead {
+        // [valid request][offending request] in one write
+        let (tag, mut bytes) = sim.next_request(gi, ReqKind::Get);
+        bytes.extend_from_slice(bad);
+        sim.send_bytes(gi, &bytes);
+        sim.gens[gi].completed.push(tag.clone());
+        ahead_tag = Some(tag);
+        ctx.rep.count("server_cases_with_valid_request_pipelined_ahead");
+    } else if split > 0 && split < bad.len() {
         sim.send_bytes(gi, &bad[..split]);
         sim.poll();
         sim.send_bytes(gi, &bad[split..]);
@@ -474,6 +494,15 @@ fn server_case(ctx: &mut Ctx, bad: &[u8], split: usize, cont: &[u8], pre_valid: 
         return fail(ctx, "no-400", format!("the client sent {:?} and never received a complete 400", show(bad)));
     }
     ctx.rep.count("server_400_received");
+    if let Some(t) = &ahead_tag {
+        // yielded by now, or dropped: both are fine; from here on it must not appear any more
+        if sim.gens[gi].yielded.contains(t) {
+            expected.push(t.clone());
+            ctx.rep.count("server_pipelined_ahead_request_yielded_with_the_error_read");
+        } else {
+            ctx.rep.count("server_pipelined_ahead_request_dropped");
+        }
+    }
     // continuation bytes that contain no valid request
     if !cont.is_empty() {
         sim.send_bytes(gi, cont);
@@ -514,7 +543,9 @@ fn server_case(ctx: &mut Ctx, bad: &[u8], split: usize, cont: &[u8], pre_valid: 
     match judge_client(&sim.gens[gi], &JudgeOpts { allow_500: false }) {
         Err((k, d)) => return fail(ctx, &k, d),
         Ok(v) => {
-            if v.app_responses != expected.len() {
+            // (a pipelined-ahead request that was yielded is left unanswered by this scenario)
+            let answered = expected.len() - ahead_tag.as_ref().map(|t| expected.contains(t) as usize).unwrap_or(0);
+            if v.app_responses != answered {
                 return fail(ctx, "later-valid-request-not-answered", format!("{} application responses received, {} expected", v.app_responses, expected.len()));
             }
         }
@@ -567,6 +598,9 @@ fn server_family(ctx: &mut Ctx) {
                     if server_case(ctx, bad, split, cont, pre) && ctx.rep.violations_total > 30 {
                         return;
                     }
+                    if split == 0 && server_case_ex(ctx, bad, 0, cont, pre, true) && ctx.rep.violations_total > 30 {
+                        return;
+                    }
                 }
             }
         }
@@ -576,7 +610,7 @@ fn server_family(ctx: &mut Ctx) {
 pub fn replay(ctx: &mut Ctx, case: &J) {
     if case.gs("engine") == "server-simulator" {
         ctx.only_case = None;
-        server_case(ctx, &case.ghex("bad_hex"), case.gu("split") as usize, &case.ghex("continuation_hex"), matches!(case.get("pre_valid"), Some(J::Bool(true))));
+        server_case_ex(ctx, &case.ghex("bad_hex"), case.gu("split") as usize, &case.ghex("continuation_hex"), matches!(case.get("pre_valid"), Some(J::Bool(true))), matches!(case.get("ahead"), Some(J::Bool(true))));
         return;
     }
     let fd_seg = case.get("fd_seg").and_then(|x| x.as_i64()).unwrap_or(-1);
